@@ -32,3 +32,4 @@ def run(ck):
     codec.r15_alphaless_fetchers_force_alpha(ck, P, 'C02-R23')  # the implementations' scanline readers agree on the alpha of alpha-less formats
     status.r_wide_only_properties_reach_the_flags(ck, P)
     sampling.r18_rotation_tiles(ck, P, 'C02-R25')        # the tiled C rotation fast paths against the general path
+    filt.r13_phase_follows_the_pixel(ck, P, 'C02-R26')           # the C fast fetcher against the general one
